@@ -37,7 +37,7 @@ func (C17Mon) After(w *core.World, st *core.Step) {
 		}
 		pa := ParseArgv(st.Argv)
 		for _, a := range pa.Pos {
-			if cp, ok := CleanArg(a); ok {
+			if cp, ok := CleanArgAt(st.Pre, a); ok {
 				form := "file"
 				switch {
 				case cp == ".":
@@ -178,6 +178,17 @@ func runC17(c *core.Ctx) {
 		for i := 0; i < steps; i++ {
 			if k.chance(18) {
 				a := explicit[k.R.IntN(len(explicit))]
+				if k.chance(30) {
+					// the same thing spelled as an absolute path / through a detour
+					switch k.R.IntN(3) {
+					case 0:
+						a = w.SB.W() + "/" + a
+					case 1:
+						a = w.SB.W()
+					default:
+						a = "../w/" + a
+					}
+				}
 				args := []string{"add", a}
 				if k.chance(30) {
 					args = append(args, ".")
@@ -407,9 +418,9 @@ func runC06CLI(c *core.Ctx) {
 
 func init() {
 	register(&Prop{ID: "C17", Level: "exploration",
-		Rule: "seeded histories over working trees with nested ignored directories and extensions, .goitignore files of 'name/' and '*.ext' lines, near-miss names (subname/, a.extra, x.goit/, .goitx/), two thirds with an ignore file; add forms: a file, a directory, '.', a parent of an ignored path, the ignored path itself, .goit, .goit/HEAD, repeated after commits (metadata grown); after every add: no staged path inside .goit or excluded by the rules and the staged set is exactly the expected one; status lists none of them and hides nothing without an ignore file; around restore/reset --hard Goit's own files are byte-identical; distinct = (argument form, rule kinds, metadata grown)",
-		Mons:  func() []core.Monitor { return []core.Monitor{C17Mon{}} },
-		Run:   runC17,
+		Rule:   "seeded histories over working trees with nested ignored directories and extensions, .goitignore files of 'name/' and '*.ext' lines, near-miss names (subname/, a.extra, x.goit/, .goitx/), two thirds with an ignore file; add forms: a file, a directory, '.', a parent of an ignored path, the ignored path itself, .goit, .goit/HEAD, repeated after commits (metadata grown); after every add: no staged path inside .goit or excluded by the rules and the staged set is exactly the expected one; status lists none of them and hides nothing without an ignore file; around restore/reset --hard Goit's own files are byte-identical; distinct = (argument form, rule kinds, metadata grown)",
+		Mons:   func() []core.Monitor { return []core.Monitor{C17Mon{}} },
+		Run:    runC17,
 		Floors: []core.Floor{{Key: "C17.staged-goit", Min: 600}, {Key: "C17.status-lists", Min: 300}, {Key: "C17.goit-overwritten", Min: 100}},
 	})
 }
